@@ -6,6 +6,7 @@ import PqlModel.Props.C02Semantics
 import PqlModel.Props.C02Statement
 import PqlModel.Props.C05ParseStatement
 import PqlModel.Props.C02EndToEnd
+import PqlModel.Props.C05Parsed
 #print axioms Pql.C05.C05_ends_with_semicolon
 #print axioms Pql.C05.C05_subqueryName_injective
 #print axioms Pql.C05.C05_chain_names_by_index
@@ -70,3 +71,19 @@ import PqlModel.Props.C02EndToEnd
 #print axioms Pql.C05.C05_counterexample_empty_sort
 #print axioms Pql.C05.C05_counterexample_anonymous_column
 #print axioms Pql.C05.C05_split_refines_rel
+#print axioms Pql.ParsedOK.parsed_facts
+#print axioms Pql.ParsedOK.parsed_lexOK
+#print axioms Pql.ParsedOK.parsed_fnShape
+#print axioms Pql.ParsedOK.parsed_lexOK_dollar
+#print axioms Pql.ParsedOK.scan_number_numOK
+#print axioms Pql.ParsedOK.parsed_shapeOK
+#print axioms Pql.ParsedOK.parsed_tabularOK
+#print axioms Pql.ParsedOK.parsed_resolved_tabularOK
+#print axioms Pql.ParsedOK.parsed_letValuesOK
+#print axioms Pql.ParsedOK.parsed_hasSources
+#print axioms Pql.ParsedOK.C05_parsed_side_conditions
+#print axioms Pql.ParsedOK.C05_parse_statement_source
+#print axioms Pql.ParsedOK.k4Free_needed
+#print axioms Pql.ParsedOK.fnNamesOK_needed
+#print axioms Pql.ParsedOK.compile_needed
+#print axioms Pql.ParsedOK.empty_quoted_name
